@@ -2,6 +2,8 @@ package rules
 
 import (
 	"fmt"
+	"go/types"
+	"saoverif/internal/eff"
 	"strings"
 
 	"golang.org/x/tools/go/ssa"
@@ -409,4 +411,349 @@ func ruleLoopVarAddr(r *core.Run, id string, roots ...string) {
 	}
 	r.Discharge(id, core.Key(id, "scope"), "", fmt.Sprintf("%d loops in %d functions scanned, %d escaping loop-variable addresses", nLoops, len(scope), nBad))
 	r.Floor("loopvar_loops_scanned", nLoops, 5)
+}
+
+// lostUpdateCandidates: in function f a record is read from store prefix P into a
+// local (call g1 with a read effect on P whose result feeds a later write call),
+// then a module helper that itself writes P is called, then the stale local is
+// written back to P. Returns descriptions (used by T-lost-update).
+type lostUpdate struct {
+	Fn              *ssa.Function
+	Prefix          string
+	Read, Mid, Back ssa.CallInstruction
+}
+
+func lostUpdates(r *core.Run, f *ssa.Function) []lostUpdate {
+	res := r.Resolver(f)
+	type callInfo struct {
+		c      ssa.CallInstruction
+		reads  map[string]bool
+		writes map[string]bool
+		direct bool // the callee itself is the accessor (getter/setter): its own effects, not transitive
+	}
+	var calls []callInfo
+	for _, b := range f.Blocks {
+		for _, ins := range b.Instrs {
+			c, ok := ins.(ssa.CallInstruction)
+			if !ok {
+				continue
+			}
+			_, cs := res.CalleeName(c.Common())
+			if len(cs) == 0 {
+				continue
+			}
+			ci := callInfo{c: c, reads: map[string]bool{}, writes: map[string]bool{}}
+			for _, e := range r.Eff.Reach(cs...) {
+				if !strings.HasPrefix(e.Kind, "store.") || e.Prefix == "?" {
+					continue
+				}
+				p := eff.StoreOwner(e) + ":" + e.Prefix
+				if e.IsWrite() {
+					ci.writes[p] = true
+				} else {
+					ci.reads[p] = true
+				}
+			}
+			if len(ci.reads)+len(ci.writes) > 0 {
+				calls = append(calls, ci)
+			}
+		}
+	}
+	reach := func(from, to ssa.Instruction) bool {
+		if from.Block() == to.Block() {
+			fi, ti := -1, -1
+			for i, ins := range from.Block().Instrs {
+				if ins == from {
+					fi = i
+				}
+				if ins == to {
+					ti = i
+				}
+			}
+			if fi < ti {
+				return true
+			}
+		}
+		return forwardAvoid(from.Block(), nil, nil, func(b *ssa.BasicBlock) bool { return b == to.Block() && b != from.Block() }) != nil
+	}
+	reachAvoiding := func(from, to ssa.Instruction, avoid *ssa.BasicBlock) bool {
+		if from.Block() == to.Block() {
+			return reach(from, to)
+		}
+		blocked := map[*ssa.BasicBlock]bool{}
+		if avoid != from.Block() && avoid != to.Block() {
+			blocked[avoid] = true
+		}
+		return forwardAvoid(from.Block(), blocked, nil, func(b *ssa.BasicBlock) bool { return b == to.Block() }) != nil
+	}
+	dependsOn := func(v ssa.Value, src ssa.Value) bool {
+		seen := map[ssa.Value]bool{}
+		var walk func(x ssa.Value, d int) bool
+		walk = func(x ssa.Value, d int) bool {
+			if x == src {
+				return true
+			}
+			if d > 6 || seen[x] {
+				return false
+			}
+			seen[x] = true
+			switch y := x.(type) {
+			case *ssa.UnOp:
+				if al, ok := y.X.(*ssa.Alloc); ok {
+					for _, ref := range *al.Referrers() {
+						if st, ok := ref.(*ssa.Store); ok && st.Addr == al && walk(st.Val, d+1) {
+							return true
+						}
+					}
+				}
+				return walk(y.X, d+1)
+			case *ssa.Extract:
+				return walk(y.Tuple, d+1)
+			case *ssa.Alloc:
+				for _, ref := range *y.Referrers() {
+					if st, ok := ref.(*ssa.Store); ok && st.Addr == y && walk(st.Val, d+1) {
+						return true
+					}
+				}
+			case *ssa.MakeInterface:
+				return walk(y.X, d+1)
+			case *ssa.Phi:
+				for _, e := range y.Edges {
+					if walk(e, d+1) {
+						return true
+					}
+				}
+			}
+			return false
+		}
+		return walk(v, 0)
+	}
+	var out []lostUpdate
+	for _, rd := range calls {
+		rv, isVal := rd.c.(ssa.Value)
+		if !isVal || len(rd.writes) > 0 || len(rd.reads) != 1 {
+			continue // a pure getter of one prefix
+		}
+		var P string
+		for p := range rd.reads {
+			P = p
+		}
+		for _, back := range calls {
+			if !back.writes[P] || len(back.writes) != 1 || back.c == rd.c {
+				continue
+			}
+			// the write-back stores a value derived from the getter's result
+			derived := false
+			for _, a := range back.c.Common().Args {
+				if dependsOn(a, rv) {
+					derived = true
+				}
+			}
+			if !derived || !reach(rd.c, back.c) {
+				continue
+			}
+			for _, mid := range calls {
+				if mid.c == rd.c || mid.c == back.c || !mid.writes[P] || !mid.reads[P] {
+					continue // the helper loads and stores records of P itself
+				}
+				// ... and is told WHICH record by a scalar key taken from the local copy (or equal to the getter's key)
+				keyed := false
+				rdArgs := map[string]bool{}
+				for _, a := range rd.c.Common().Args {
+					rdArgs[res.Of(a).String()] = true
+				}
+				for _, a := range mid.c.Common().Args {
+					if _, isBasic := a.Type().Underlying().(*types.Basic); !isBasic {
+						continue
+					}
+					if rdArgs[res.Of(a).String()] {
+						keyed = true
+					}
+					if fl, ok := a.(*ssa.Field); ok && dependsOn(fl.X, rv) {
+						keyed = true
+					}
+					if u, ok := a.(*ssa.UnOp); ok {
+						if fa, ok := u.X.(*ssa.FieldAddr); ok && dependsOn(fa.X, rv) {
+							keyed = true
+						}
+					}
+				}
+				if !keyed {
+					continue
+				}
+				// the helper is not handed the local by reference (then it updates the same copy)
+				byRef := false
+				for _, a := range mid.c.Common().Args {
+					if _, isPtr := a.Type().Underlying().(*types.Pointer); isPtr && dependsOn(a, rv) {
+						byRef = true
+					}
+					if al, ok := a.(*ssa.Alloc); ok && dependsOn(al, rv) {
+						byRef = true
+					}
+				}
+				if byRef {
+					continue
+				}
+				if reach(rd.c, mid.c) && reachAvoiding(mid.c, back.c, rd.c.Block()) {
+					// re-read in between?
+					reread := false
+					for _, rr := range calls {
+						if rr.c != rd.c && rr.reads[P] && len(rr.writes) == 0 && reach(mid.c, rr.c) && reach(rr.c, back.c) {
+							if rrv, ok := rr.c.(ssa.Value); ok {
+								for _, a := range back.c.Common().Args {
+									if dependsOn(a, rrv) {
+										reread = true
+									}
+								}
+							}
+						}
+					}
+					if !reread {
+						out = append(out, lostUpdate{f, P, rd.c, mid.c, back.c})
+					}
+				}
+			}
+		}
+	}
+	return out
+}
+
+// unpersisted: stores to fields of a local record (an Alloc of one of the given
+// named struct types) from which a success return is reachable without passing a
+// call that receives the record (by value or address) and can write the store.
+type unpersistedSite struct {
+	Fn    *ssa.Function
+	Store *ssa.Store
+	Type  string
+	Field string
+	Path  []*ssa.BasicBlock
+}
+
+func unpersisted(r *core.Run, f *ssa.Function, typeNames map[string]bool) []unpersistedSite {
+	res := r.Resolver(f)
+	var out []unpersistedSite
+	succ := map[*ssa.BasicBlock]bool{}
+	for _, b := range f.Blocks {
+		if isReturnBlock(b) && successReturnIn(r, f, b) {
+			succ[b] = true
+		}
+	}
+	if len(succ) == 0 {
+		return nil
+	}
+	// persist calls per alloc
+	persistBlocks := func(al *ssa.Alloc) map[*ssa.BasicBlock][]int {
+		m := map[*ssa.BasicBlock][]int{}
+		for _, b := range f.Blocks {
+			for i, ins := range b.Instrs {
+				c, ok := ins.(ssa.CallInstruction)
+				if !ok {
+					continue
+				}
+				uses := false
+				for _, a := range c.Common().Args {
+					if a == ssa.Value(al) {
+						uses = true
+					}
+					if u, ok := a.(*ssa.UnOp); ok && u.X == ssa.Value(al) {
+						uses = true
+					}
+				}
+				if !uses {
+					continue
+				}
+				_, cs := res.CalleeName(c.Common())
+				if len(cs) > 0 && hasWrites(r, cs) {
+					m[b] = append(m[b], i)
+				}
+			}
+		}
+		return m
+	}
+	// the record may also be returned to the caller (the caller persists it)
+	returned := func(al *ssa.Alloc) bool {
+		for _, b := range f.Blocks {
+			if ret, ok := b.Instrs[len(b.Instrs)-1].(*ssa.Return); ok {
+				for _, v := range ret.Results {
+					if v == ssa.Value(al) {
+						return true
+					}
+					if u, ok := v.(*ssa.UnOp); ok && u.X == ssa.Value(al) {
+						return true
+					}
+				}
+			}
+		}
+		return false
+	}
+	for _, b := range f.Blocks {
+		for i, ins := range b.Instrs {
+			st, ok := ins.(*ssa.Store)
+			if !ok {
+				continue
+			}
+			fa, ok := st.Addr.(*ssa.FieldAddr)
+			if !ok {
+				continue
+			}
+			// innermost record: walk nested FieldAddr up to the Alloc
+			root := fa.X
+			for {
+				if f2, ok := root.(*ssa.FieldAddr); ok {
+					root = f2.X
+					continue
+				}
+				break
+			}
+			al, ok := root.(*ssa.Alloc)
+			if !ok {
+				continue
+			}
+			tn := shortTypeName(al.Type())
+			if !typeNames[tn] {
+				continue
+			}
+			// only records that came from the store (initialised by a getter result), not fresh literals
+			fromStore := false
+			for _, ref := range *al.Referrers() {
+				if s2, ok := ref.(*ssa.Store); ok && s2.Addr == ssa.Value(al) {
+					v := s2.Val
+					if ex, ok := v.(*ssa.Extract); ok {
+						v = ex.Tuple
+					}
+					if c, ok := v.(*ssa.Call); ok {
+						if _, cs := res.CalleeName(&c.Call); len(cs) > 0 && !hasWrites(r, cs) {
+							fromStore = true
+						}
+					}
+				}
+			}
+			if !fromStore || returned(al) {
+				continue
+			}
+			pb := persistBlocks(al)
+			if len(pb) == 0 {
+				continue // never persisted at all in this function: a scratch copy
+			}
+			same := false
+			for _, j := range pb[b] {
+				if j > i {
+					same = true
+				}
+			}
+			if same {
+				continue
+			}
+			blocked := map[*ssa.BasicBlock]bool{}
+			for x := range pb {
+				if x != b {
+					blocked[x] = true
+				}
+			}
+			if path := forwardAvoid(b, blocked, nil, func(x *ssa.BasicBlock) bool { return succ[x] }); path != nil {
+				out = append(out, unpersistedSite{f, st, tn, fieldPath(fa), path})
+			}
+		}
+	}
+	return out
 }
